@@ -155,7 +155,53 @@ def assignment_requests(ctx, deep):
         ctx.sit("assignment_constructor_cases", n_cases)
 
 
+def status_survives(ctx):
+    """no operator changes state without a request: not when the pipeline's status object is asked for again, not when the pipeline grows while it runs
+    (an operator added late), not when an arrival is recorded a second time (refused or ignored, never a fresh start)"""
+    from eudoxia.workload.pipeline import Pipeline
+    from eudoxia.workload import OperatorState as S
+    from eudoxia.utils import Priority
+    for variant in ("asked-again", "operator-added-late", "arrival-recorded-twice", "iterated-again"):
+        p = Pipeline("s", Priority.BATCH_PIPELINE)
+        a = p.new_operator(None)
+        b = p.new_operator([a])
+        c = p.new_operator([b])
+        rs = p.runtime_status()
+        rs.record_arrival(3)
+        for op, path in ((a, (S.ASSIGNED, S.RUNNING, S.COMPLETED)), (b, (S.ASSIGNED, S.RUNNING))):
+            for t in path:
+                op.transition(t)
+        before = [x.state() for x in (a, b, c)]
+        if variant == "operator-added-late":
+            p.new_operator([c])
+        elif variant == "arrival-recorded-twice":
+            try:
+                p.runtime_status().record_arrival(9)
+            except AssertionError:
+                pass
+        elif variant == "iterated-again":
+            list(p.values), list(p.values)
+        after = [x.state() for x in (a, b, c)]
+        rs2 = p.runtime_status()
+        hist = {st: sum(1 for x in rs2.operator_states.values() if x == st) for st in S}
+        ctx.coverage["evaluations"] += 1
+        ctx.sit("status_survives_" + variant)
+        refused = True
+        try:
+            a.transition(S.ASSIGNED)
+            refused = False
+        except BaseException:
+            pass
+        if after != before or any(rs2.state_counts[st] != hist[st] for st in S) or not refused:
+            ctx.violations.append({"what": f"operators in the states {[x.name for x in before]} ({variant.replace('-', ' ')}): afterwards they are in "
+                                           f"{[x.name for x in after]}, the per-state counts are {dict((k.name, v) for k, v in rs2.state_counts.items())}"
+                                           + ("" if refused else "; the COMPLETED operator could be ASSIGNED again"),
+                                   "layer": "W", "case": {"variant": variant}, "sig": {"clause": "unrequested-change"}})
+            return
+
+
 def run(ctx):
+    status_survives(ctx)
     exhaustive_requests(ctx, 3 if ctx.quick() else 4)
     assignment_requests(ctx, not ctx.quick())
     k = 1 if ctx.quick() else 8
